@@ -1,6 +1,6 @@
 (* C03 — property theorems.  Statements only: each is closed by [exact] of a lemma proved elsewhere.
    [func_table] is the function registry regenerated from core/expressions/*.py on every run; [h] says whether HISTORY is enabled. *)
-From QT Require Import C03.Parser C03.ParserThm C03.LiteralThm C03.WfThm Gen.FuncTable.
+From QT Require Import C03.Parser C03.ParserThm C03.LiteralThm C03.WfThm C03.Grammar C03.GrammarThm Gen.FuncTable.
 Open Scope nat_scope.
 
 (* every accepted text yields a well-formed tree: function names registered and enabled, number of arguments within the
@@ -36,6 +36,56 @@ Theorem C03_literal_plain :
   forall t pos v, parse_literal t pos = POK (PLit t v) -> forallb (fun c => negb (special c)) t = true.
 Proof. exact literal_plain. Qed.
 Print Assumptions C03_literal_plain.
+
+(* ---------------------------------------------------------------- the accept/reject oracle of the harness (Grammar.derives, a
+   recogniser written from the grammar: strip, '$'/'@' id, NAME '(' args split at top-level commas ')', literal) and the
+   parser model (the index-based scan) accept exactly the same texts — every text, any length and nesting, both history
+   settings; nothing is excluded *)
+(* soundness of the oracle: what the parser accepts the grammar derives, with the flag "is a port reference" of the root *)
+Theorem C03_grammar_sound :
+  forall h s e, parse func_table h s = POK e -> derives func_table h (S (List.length s)) s = Some (is_ref e).
+Proof. exact (grammar_sound func_table). Qed.
+Print Assumptions C03_grammar_sound.
+
+Theorem C03_grammar_sound_ex :
+  forall h s e, parse func_table h s = POK e -> exists fuel, derives func_table h fuel s = Some (is_ref e).
+Proof. exact (grammar_sound_ex func_table). Qed.
+Print Assumptions C03_grammar_sound_ex.
+
+(* completeness: what the grammar derives (with whatever fuel) the parser accepts, and the root is a reference iff the flag says so *)
+Theorem C03_grammar_complete :
+  forall h fuel s b, derives func_table h fuel s = Some b -> exists e, parse func_table h s = POK e /\ is_ref e = b.
+Proof. exact (grammar_complete func_table). Qed.
+Print Assumptions C03_grammar_complete.
+
+(* the same at every nesting budget and position (the induction that gives both directions: same fuel on both sides) *)
+Theorem C03_grammar_sound_fuel :
+  forall h fuel s pos e, parse_fuel func_table h fuel tt s pos = POK e -> derives func_table h fuel s = Some (is_ref e).
+Proof. exact (parse_derives func_table). Qed.
+Print Assumptions C03_grammar_sound_fuel.
+
+Theorem C03_grammar_complete_fuel :
+  forall h fuel s b, derives func_table h fuel s = Some b ->
+    forall pos, exists e, parse_fuel func_table h fuel tt s pos = POK e /\ is_ref e = b.
+Proof. exact (derives_parse func_table). Qed.
+Print Assumptions C03_grammar_complete_fuel.
+
+(* the recogniser's fuel: more never hurts, and S (length s) — what [accepts] uses — always suffices *)
+Theorem C03_grammar_fuel_mono :
+  forall h fuel s b, derives func_table h fuel s = Some b -> derives func_table h (S fuel) s = Some b.
+Proof. exact (derives_mono func_table). Qed.
+Print Assumptions C03_grammar_fuel_mono.
+
+Theorem C03_grammar_fuel_bound :
+  forall h fuel s b, derives func_table h fuel s = Some b -> derives func_table h (S (List.length s)) s = Some b.
+Proof. exact (derives_bound func_table). Qed.
+Print Assumptions C03_grammar_fuel_bound.
+
+(* hence the oracle as the harness calls it is the parser model's accept/reject, for every text *)
+Theorem C03_oracle_exact :
+  forall h s, accepts func_table h s = match parse func_table h s with POK _ => true | PErrR _ => false end.
+Proof. exact (accepts_exact func_table). Qed.
+Print Assumptions C03_oracle_exact.
 
 (* non-vacuity: a nested text with odd whitespace is accepted, and its canonical text parses back *)
 Example C03_nonvacuous :
